@@ -4,6 +4,7 @@
 -/
 import CimbaModel.HashHeap.GuardOrder
 import CimbaModel.Sim.S3GuardOps
+import CimbaModel.Sim.S3All
 
 namespace CimbaModel.Props.C06
 open CimbaModel CimbaModel.HashHeap CimbaModel.Generated CimbaModel.HashHeap.SpecOrders
@@ -176,5 +177,35 @@ example : ∃ (w : World) (gd : Guard), w.guards[0]? = some gd ∧ WF guard_queu
   · rw [← abs_length, hperm.length_eq]; simp [KPQ.insert]
   · have : (⟨3, 0, ⟨3, 0, 0, 0⟩, 0, 0⟩ : HTag) ∈ abs s1 := hperm.mem_iff.2 (by simp [KPQ.insert, norm])
     exact List.mem_map.2 ⟨_, this, rfl⟩
+
+
+/-! ### in every reachable state
+
+`AllInv` (Props/C04, Sim/S3All) is an invariant of `dispatch`; one of its clauses is that every waiting list is a
+well-formed hashheap, so the hypothesis `WF guard_queue_check gd.q` of the theorems above holds at every signal of every
+run that starts in a state satisfying `InitOkG` and the static side conditions `SideOk`. -/
+
+theorem waiting_lists_wellformed {w0 w : World} (hr : Reach w0 w) (h0 : AllInv w0) (g : Nat) (gd : Guard)
+    (hg : w.guards[g]? = some gd) : WF guard_queue_check gd.q := (h0.reach hr).g.gw g gd hg
+
+/-- `served_in_order` / `no_overtake` without the well-formedness hypothesis -/
+theorem served_in_order_reachable {w0 w : World} (hr : Reach w0 w) (h0 : AllInv w0) (g : Nat) (gd : Guard)
+    (hg : w.guards[g]? = some gd) (hpos : 0 < gd.q.count) :
+    IsMin guard_queue_check (abs gd.q) (norm (gd.q.tag 1)) ∧
+    (∀ x ∈ abs gd.q, x.key ≠ (gd.q.tag 1).key → guardLt (norm (gd.q.tag 1)) x) ∧
+    (evalDemand w (demandOf gd (gd.q.tag 1).key) = true →
+      ∃ q', frontStep w g gd = grant w g q' (gd.q.tag 1).key ∧ (abs gd.q).Perm (norm (gd.q.tag 1) :: abs q') ∧
+        ∀ x ∈ abs q', x.i ≤ (gd.q.tag 1).i ∧ (x.i = (gd.q.tag 1).i → (gd.q.tag 1).d ≤ x.d) ∧
+          (x.i = (gd.q.tag 1).i → x.d = (gd.q.tag 1).d → (gd.q.tag 1).key < x.key)) ∧
+    (evalDemand w (demandOf gd (gd.q.tag 1).key) = false → frontStep w g gd = w) := by
+  have hwf := waiting_lists_wellformed hr h0 g gd hg
+  obtain ⟨h1, h2, _, h4⟩ := served_in_order w g gd hwf hpos
+  exact ⟨h1, h2, fun hd => no_overtake w g gd hwf hpos hd, h4⟩
+
+/-- who is in a waiting list (I_guard): a queued key is `p + 1` for an existing process `p` that awaits exactly this
+    guard and is suspended in a wait on it -/
+theorem queued_is_waiting {w0 w : World} (hr : Reach w0 w) (h0 : AllInv w0) {g k : Nat} (hq : queued w g k) :
+    ∃ p f, k = p + 1 ∧ p < w.procs.size ∧ Await.guard g ∈ (w.proc p).awaits ∧ guardAw w p = [.guard g] ∧
+      (w.proc p).blocked = some f ∧ FrameOn w f g := (h0.reach hr).g.queued_means hq
 
 end CimbaModel.Props.C06
